@@ -851,12 +851,16 @@ Section CodecProofs.
   Proof.
     induction chunks as [|c r IH]; intros p (g & st & Hl); cbn [feed_chunks].
     - split; [apply same_cfg_refl|]. split; eauto.
-    - unfold decompress_data. rewrite Hl. destruct (d_feed st c) as [[st' out]|]; cbn [bind]; [|exact I].
-      set (p1 := set_decomp p (HLive g st') (p_gen p)).
-      specialize (IH p1 (ex_intro _ g (ex_intro _ st' eq_refl))).
-      destruct (feedC p1 r) as [[p2 o2]|e]; cbn [bind]; [|exact IH].
-      destruct IH as (Hc & Hl2 & Hcomp). split; [|split; [exact Hl2 | exact Hcomp]].
-      eapply same_cfg_trans; [apply same_cfg_set_decomp | exact Hc].
+    - unfold decompress_data.
+      destruct (dc_empty_guard (p_disc p) && match c with [] => true | _ :: _ => false end).
+      + cbn [bind]. specialize (IH p (ex_intro _ g (ex_intro _ st Hl))).
+        destruct (feedC p r) as [[p2 o2]|e]; cbn [bind]; exact IH.
+      + rewrite Hl. destruct (d_feed st c) as [[st' out]|]; cbn [bind]; [|exact I].
+        set (p1 := set_decomp p (HLive g st') (p_gen p)).
+        specialize (IH p1 (ex_intro _ g (ex_intro _ st' eq_refl))).
+        destruct (feedC p1 r) as [[p2 o2]|e]; cbn [bind]; [|exact IH].
+        destruct IH as (Hc & Hl2 & Hcomp). split; [|split; [exact Hl2 | exact Hcomp]].
+        eapply same_cfg_trans; [apply same_cfg_set_decomp | exact Hc].
   Qed.
 
   Lemma endD_safe p :
@@ -1033,29 +1037,63 @@ Section Lossless.
   Lemma set_decomp_same (p : pm_t) g ds : p_decomp p = HLive g ds -> set_decomp p (HLive g ds) (p_gen p) = p.
   Proof. destruct p. cbn. intros ->. reflexivity. Qed.
 
-  (* any segmentation of the wire octets is the same to the decompressor *)
-  Lemma feedC_concat chunks : forall (p : pm_t) g ds ds1 X,
-    p_decomp p = HLive g ds -> d_feed ds (List.concat chunks) = Some (ds1, X) ->
-    feedC p chunks = Ok (set_decomp p (HLive g ds1) (p_gen p), X).
+  (* feed_chunks over a concatenation (no property of the codec involved) *)
+  Lemma feedC_app a : forall (p : pm_t) b,
+    feedC p (a ++ b) = bind (feedC p a) (fun '(p1, o1) => bind (feedC p1 b) (fun '(p2, o2) => Ok (p2, o1 ++ o2))).
   Proof.
-    induction chunks as [|c r IH]; intros p g ds ds1 X Hl Hf; cbn [feed_chunks List.concat] in *.
-    - rewrite (law_feed_nil _ _ _ _ _ _ _ _ _ _ law) in Hf. inversion Hf; subst. now rewrite set_decomp_same.
-    - rewrite (law_feed_app _ _ _ _ _ _ _ _ _ _ law) in Hf.
-      destruct (d_feed ds c) as [[dsa oa]|] eqn:Ea; cbn [obind] in Hf; [|discriminate].
-      destruct (d_feed dsa (List.concat r)) as [[dsb ob]|] eqn:Eb; cbn [obind] in Hf; [|discriminate].
-      inversion Hf; subst. unfold decompress_data. rewrite Hl, Ea. cbn [bind].
-      rewrite (IH (set_decomp p (HLive g dsa) (p_gen p)) g dsa ds1 ob eq_refl Eb). reflexivity.
+    induction a as [|c r IH]; intros p b; cbn [app feed_chunks bind].
+    - destruct (feedC p b) as [[p2 o2]|e]; reflexivity.
+    - destruct (decD p c) as [[p1 o1]|e]; cbn [bind]; [|reflexivity].
+      rewrite IH. destruct (feedC p1 r) as [[p2 o2]|e]; cbn [bind]; [|reflexivity].
+      destruct (feedC p2 b) as [[p3 o3]|e]; cbn [bind]; [|reflexivity]. now rewrite app_assoc.
   Qed.
 
-  Lemma feed_app_inv ds a b ds1 X :
-    d_feed ds (a ++ b) = Some (ds1, X) ->
-    exists dsa oa ob, d_feed ds a = Some (dsa, oa) /\ d_feed dsa b = Some (ds1, ob) /\ X = oa ++ ob.
+  Lemma feedC_app_inv a (p : pm_t) b p2 X :
+    feedC p (a ++ b) = Ok (p2, X) ->
+    exists p1 oa ob, feedC p a = Ok (p1, oa) /\ feedC p1 b = Ok (p2, ob) /\ X = oa ++ ob.
   Proof.
-    rewrite (law_feed_app _ _ _ _ _ _ _ _ _ _ law).
-    destruct (d_feed ds a) as [[dsa oa]|] eqn:Ea; cbn [obind]; [|discriminate].
-    destruct (d_feed dsa b) as [[dsb ob]|] eqn:Eb; cbn [obind]; [|discriminate].
-    intros H. inversion H; subst. exists dsa, oa, ob. auto.
+    rewrite feedC_app. destruct (feedC p a) as [[p1 oa]|e] eqn:Ea; cbn [bind]; [|discriminate].
+    destruct (feedC p1 b) as [[p3 ob]|e] eqn:Eb; cbn [bind]; [|discriminate].
+    intros H. inversion H; subst. exists p1, oa, ob. auto.
   Qed.
+
+  (* empty input never changes anything: guarded away (bzip2) or answered with nothing by the library *)
+  Lemma decD_nil (p : pm_t) g ds :
+    p_decomp p = HLive g ds -> p_disc p = disc_of x -> decD p [] = Ok (p, []).
+  Proof.
+    intros Hl Hd. unfold decompress_data. rewrite Hd. destruct (dc_empty_guard (disc_of x)) eqn:Eg; [reflexivity|].
+    cbn [andb]. rewrite Hl, (law_feed_nil _ _ _ _ _ _ _ _ _ _ law Eg). now rewrite set_decomp_same.
+  Qed.
+
+  Lemma decD_cons (p : pm_t) g ds a c ds1 X :
+    p_decomp p = HLive g ds -> d_feed ds (a :: c) = Some (ds1, X) ->
+    decD p (a :: c) = Ok (set_decomp p (HLive g ds1) (p_gen p), X).
+  Proof. intros Hl Hf. unfold decompress_data. rewrite andb_false_r, Hl, Hf. reflexivity. Qed.
+
+  (* the chunks as they arrive - empty ones included - against the library fed with the non-empty ones *)
+  Lemma feedC_seq chunks : forall (p : pm_t) g ds ds1 X,
+    p_decomp p = HLive g ds -> p_disc p = disc_of x ->
+    feed_seq DS d_feed ds (filter nonempty chunks) = Some (ds1, X) ->
+    feedC p chunks = Ok (set_decomp p (HLive g ds1) (p_gen p), X).
+  Proof.
+    induction chunks as [|c r IH]; intros p g ds ds1 X Hl Hd Hf; cbn [feed_chunks filter feed_seq] in *.
+    - inversion Hf; subst. now rewrite set_decomp_same.
+    - destruct c as [|a c]; cbn [nonempty] in Hf.
+      + rewrite (decD_nil p g ds Hl Hd). cbn [bind]. rewrite (IH p g ds ds1 X Hl Hd Hf). reflexivity.
+      + cbn [feed_seq] in Hf.
+        destruct (d_feed ds (a :: c)) as [[dsa oa]|] eqn:Ea; cbn [obind] in Hf; [|discriminate].
+        destruct (feed_seq DS d_feed dsa (filter nonempty r)) as [[dsb ob]|] eqn:Eb; cbn [obind] in Hf; [|discriminate].
+        inversion Hf; subst. rewrite (decD_cons p g ds a c dsa oa Hl Ea). cbn [bind].
+        rewrite (IH (set_decomp p (HLive g dsa) (p_gen p)) g dsa ds1 ob eq_refl Hd Eb). reflexivity.
+  Qed.
+
+  Lemma filter_nonempty_ok l : forallb nonempty (filter nonempty l) = true.
+  Proof. induction l as [|c r IH]; [reflexivity|]. cbn [filter]. destruct c; cbn [nonempty forallb andb]; assumption. Qed.
+  Lemma concat_filter_nonempty l : List.concat (filter nonempty l) = List.concat l.
+  Proof. induction l as [|c r IH]; [reflexivity|]. destruct c; cbn [filter nonempty List.concat app]; now rewrite IH. Qed.
+
+  (* the chunks of a received frame sequence, in order *)
+  Definition allchunks (rfs : list rframe) : list bytes := List.concat (map (fun rf : rframe => snd rf) rfs).
 
   (* recv_frame after onFrameBegin has fixed (pmce, compressed, binary, data) *)
   Definition after_begin (st : rs_t) (pm : option pm_t) (compressed binary : bool) (data : bytes)
@@ -1105,63 +1143,71 @@ Section Lossless.
   Qed.
 
   (* the continuation frames of a compressed message *)
-  Lemma recv_conts_c pls : forall (st : rs_t) p g ds rfs more ds1 X p2,
+  Lemma recv_conts_c pls : forall (st : rs_t) p rfs more p1 X p2,
     pls <> [] ->
     r_pmce st = Some p -> r_inside st = true -> r_compressed st = true ->
-    p_decomp p = HLive g ds ->
     Forall2 chunked (mk_conts pls) rfs ->
-    d_feed ds (List.concat pls) = Some (ds1, X) ->
-    endD (set_decomp p (HLive g ds1) (p_gen p)) = Ok p2 ->
+    feedC p (allchunks rfs) = Ok (p1, X) ->
+    endD p1 = Ok p2 ->
     recvFs st (rfs ++ more) =
       let st2 := {| r_pmce := Some p2; r_inside := false; r_compressed := true; r_binary := r_binary st; r_data := [] |} in
       (fst (recvFs st2 more), Delivered (r_data st ++ X) (r_binary st) :: snd (recvFs st2 more)).
   Proof.
-    induction pls as [|pl r IH]; intros st p g ds rfs more ds1 X p2 Hne Hp Hi Hc Hl Hch Hf He; [contradiction|].
+    induction pls as [|pl r IH]; intros st p rfs more p1 X p2 Hne Hp Hi Hc Hch Hf He; [contradiction|].
     cbn [mk_conts] in Hch. inversion Hch as [|f rf fs rfs' Hrf Hrest]; subst. clear Hch.
     destruct rf as [[[fin rsv] opcode] chunks]. cbn [chunked f_fin f_rsv f_opcode f_payload] in Hrf.
     destruct Hrf as (-> & -> & -> & Hcc).
-    cbn [List.concat] in Hf. apply feed_app_inv in Hf. destruct Hf as (dsa & oa & ob & Ha & Hb & ->).
+    unfold allchunks in Hf. cbn [map snd List.concat] in Hf. fold (allchunks rfs') in Hf.
+    apply feedC_app_inv in Hf. destruct Hf as (pa & oa & ob & Ha & Hb & ->).
     rewrite <- app_comm_cons, recvFs_cons, (recvF_cont st p _ chunks Hp Hi). unfold after_begin.
-    rewrite Hp, Hc. rewrite <- Hcc in Ha. rewrite (feedC_concat chunks p g ds dsa oa Hl Ha). cbn [bind].
+    rewrite Hp, Hc, Ha. cbn [bind].
     destruct r as [|pl2 r2].
-    - (* last frame *)
-      cbn [List.concat] in Hb. rewrite (law_feed_nil _ _ _ _ _ _ _ _ _ _ law) in Hb. inversion Hb; subst.
-      inversion Hrest; subst. rewrite He. cbn [bind app]. rewrite app_nil_r. reflexivity.
-    - set (st1 := {| r_pmce := Some (set_decomp p (HLive g dsa) (p_gen p)); r_inside := true; r_compressed := true;
+    - inversion Hrest; subst. cbn [allchunks map List.concat feed_chunks] in Hb. inversion Hb; subst.
+      rewrite He. cbn [bind app]. rewrite app_nil_r. reflexivity.
+    - set (st1 := {| r_pmce := Some pa; r_inside := true; r_compressed := true;
                      r_binary := r_binary st; r_data := r_data st ++ oa |}).
-      rewrite (IH st1 (set_decomp p (HLive g dsa) (p_gen p)) g dsa rfs' more ds1 ob p2); try reflexivity; try assumption.
-      + cbn [app r_binary r_data st1]. rewrite app_assoc. reflexivity.
+      rewrite (IH st1 pa rfs' more p1 ob p2); try reflexivity; try assumption.
+      + cbn [app fst snd r_binary r_data st1]. rewrite app_assoc. reflexivity.
       + discriminate.
   Qed.
 
   (* a whole compressed message *)
-  Lemma recv_msg_c pls (st : rs_t) p g ds rfs more ds1 X p2 opcode :
+  Lemma recv_msg_c pls (st : rs_t) p rfs more p1 X p2 opcode :
     pls <> [] -> (opcode = 1 \/ opcode = 2)%N ->
     r_pmce st = Some p -> r_inside st = false ->
-    p_decomp (startD p) = HLive g ds ->
     Forall2 chunked (mk_frames opcode 4 pls) rfs ->
-    d_feed ds (List.concat pls) = Some (ds1, X) ->
-    endD (set_decomp (startD p) (HLive g ds1) (p_gen (startD p))) = Ok p2 ->
+    feedC (startD p) (allchunks rfs) = Ok (p1, X) ->
+    endD p1 = Ok p2 ->
     recvFs st (rfs ++ more) =
       let st2 := {| r_pmce := Some p2; r_inside := false; r_compressed := true; r_binary := (opcode =? 2)%N; r_data := [] |} in
       (fst (recvFs st2 more), Delivered X (opcode =? 2)%N :: snd (recvFs st2 more)).
   Proof.
-    intros Hne Ho Hp Hi Hl Hch Hf He. destruct pls as [|pl r]; [contradiction|].
+    intros Hne Ho Hp Hi Hch Hf He. destruct pls as [|pl r]; [contradiction|].
     cbn [mk_frames] in Hch. inversion Hch as [|f rf fs rfs' Hrf Hrest]; subst. clear Hch.
     destruct rf as [[[fin rsv] op] chunks]. cbn [chunked f_fin f_rsv f_opcode f_payload] in Hrf.
     destruct Hrf as (-> & -> & -> & Hcc).
-    cbn [List.concat] in Hf. apply feed_app_inv in Hf. destruct Hf as (dsa & oa & ob & Ha & Hb & ->).
+    unfold allchunks in Hf. cbn [map snd List.concat] in Hf. fold (allchunks rfs') in Hf.
+    apply feedC_app_inv in Hf. destruct Hf as (pa & oa & ob & Ha & Hb & ->).
     rewrite <- app_comm_cons, recvFs_cons, (recvF_first st p _ 4 opcode chunks Hp Hi Ho (or_intror eq_refl)).
-    cbn [N.eqb Pos.eqb]. unfold after_begin.
-    rewrite <- Hcc in Ha. rewrite (feedC_concat chunks (startD p) g ds dsa oa Hl Ha). cbn [bind].
+    cbn [N.eqb Pos.eqb]. unfold after_begin. rewrite Ha. cbn [bind].
     destruct r as [|pl2 r2].
-    - cbn [List.concat] in Hb. rewrite (law_feed_nil _ _ _ _ _ _ _ _ _ _ law) in Hb. inversion Hb; subst.
-      inversion Hrest; subst. rewrite He. cbn [bind app]. rewrite app_nil_r. reflexivity.
-    - set (p1 := set_decomp (startD p) (HLive g dsa) (p_gen (startD p))).
-      set (st1 := {| r_pmce := Some p1; r_inside := true; r_compressed := true;
+    - inversion Hrest; subst. cbn [allchunks map List.concat feed_chunks] in Hb. inversion Hb; subst.
+      rewrite He. cbn [bind app]. rewrite app_nil_r. reflexivity.
+    - set (st1 := {| r_pmce := Some pa; r_inside := true; r_compressed := true;
                      r_binary := (opcode =? 2)%N; r_data := [] ++ oa |}).
-      rewrite (recv_conts_c (pl2 :: r2) st1 p1 g dsa rfs' more ds1 ob p2); try reflexivity; try assumption.
+      rewrite (recv_conts_c (pl2 :: r2) st1 pa rfs' more p1 ob p2); try reflexivity; try assumption.
       discriminate.
+  Qed.
+
+  Lemma mk_conts_payloads pls : List.concat (map f_payload (mk_conts pls)) = List.concat pls.
+  Proof. induction pls as [|p r IH]; cbn [mk_conts map List.concat f_payload]; [reflexivity | now rewrite IH]. Qed.
+  Lemma mk_frames_payloads opcode rsv pls : List.concat (map f_payload (mk_frames opcode rsv pls)) = List.concat pls.
+  Proof. destruct pls as [|p r]; cbn [mk_frames map List.concat f_payload]; [reflexivity | now rewrite mk_conts_payloads]. Qed.
+  Lemma chunked_concat fs rfs : Forall2 chunked fs rfs -> List.concat (allchunks rfs) = List.concat (map f_payload fs).
+  Proof.
+    induction 1 as [|f rf fs rfs Hc _ IH]; [reflexivity|].
+    destruct rf as [[[fin rsv] op] chunks]. cbn [chunked] in Hc. destruct Hc as (_ & _ & _ & Hcc).
+    unfold allchunks in *. cbn [map snd List.concat]. rewrite concat_app, IH, Hcc. reflexivity.
   Qed.
 
   (* an uncompressed message (RSV1 clear): payload verbatim, PMCE object untouched *)
@@ -1370,7 +1416,8 @@ Section Lossless.
     typestate_safe (disc_of x) (p_comp_nct p1) (p_decomp_nct q0) = true ->
     exists ps' final ds1 p2,
       endC p1 = Ok (ps', final) /\
-      d_feed ds (List.concat outs ++ final) = Some (ds1, List.concat xs) /\
+      (forall pieces, forallb nonempty pieces = true -> List.concat pieces = List.concat outs ++ final ->
+                      feed_seq DS d_feed ds pieces = Some (ds1, List.concat xs)) /\
       endD (set_decomp q0 (HLive g' ds1) (p_gen q0)) = Ok p2 /\
       same_cfg CS DS p1 ps' /\ same_cfg CS DS q0 p2 /\ boundary ps' p2.
   Proof.
@@ -1380,7 +1427,7 @@ Section Lossless.
     cbn [p_decomp p_disc p_gen set_decomp]. rewrite Hd1, Hd2.
     unfold typestate_safe, end_safe in Hsafe.
     destruct x eqn:Ex; cbn [disc_of disc_deflate disc_bzip2 disc_brotli disc_snappy dc_flush dc_tail dc_comp_end dc_decomp_end
-                     dc_start_nct negb end_handle] in *.
+                     dc_start_nct dc_empty_guard negb end_handle] in *.
     - (* deflate *)
       destruct (c_flush cs1) as [cs2 o2]. destruct L as (b2 & ds1 & ds2 & junk & -> & Hf & Ht & HR2).
       eexists _, b2, ds1, _. cbn [fst snd]. rewrite strip4_tail, Ht.
@@ -1392,13 +1439,11 @@ Section Lossless.
       eexists _, o2, ds1, _. cbn [fst snd].
       split; [reflexivity|]. split; [exact Hf|]. split; [reflexivity|].
       split; [apply same_cfg_set_comp|]. split; [repeat split|]. left. split; reflexivity.
-    - (* brotli *)
+    - (* brotli: both objects dropped, like bzip2 *)
       destruct (c_flush cs1) as [cs2 o2]. destruct L as (ds1 & Hf & HR2).
       eexists _, o2, ds1, _. cbn [fst snd].
       split; [reflexivity|]. split; [exact Hf|]. split; [reflexivity|].
-      split; [apply same_cfg_set_comp|]. split; [repeat split|].
-      apply andb_true_iff in Hsafe. destruct Hsafe as [Hs1 Hs2].
-      right. right. exists g, g'. rewrite Ex. split; [reflexivity|]. split; [reflexivity|]. split; assumption.
+      split; [apply same_cfg_set_comp|]. split; [repeat split|]. left. split; reflexivity.
     - (* snappy: nothing is flushed, both handles stay *)
       destruct L as (ds1 & Hf & HR2).
       eexists p1, [], ds1, _.
@@ -1462,9 +1507,13 @@ Section Lossless.
       { apply (J_cfg ps pr); [constructor; assumption | | | exact Hb'].
         - eapply same_cfg_trans; [|exact Hc2]. repeat split; assumption.
         - eapply same_cfg_trans; [|exact Hc3]. repeat split; assumption. }
-      intros st rfs more Hp Hi Hch. rewrite <- Hc in Hf.
+      intros st rfs more Hp Hi Hch.
+      assert (Hfeed : feedC (startD pr) (allchunks rfs) =
+                      Ok (set_decomp (startD pr) (HLive g' ds1) (p_gen (startD pr)), List.concat (pieces m))).
+      { apply (feedC_seq (allchunks rfs) (startD pr) g' ds ds1 _ Hl2 E2). apply Hf; [apply filter_nonempty_ok|].
+        rewrite concat_filter_nonempty, (chunked_concat _ _ Hch), mk_frames_payloads. exact Hc. }
       eexists. split; [|split];
-        [| |rewrite (recv_msg_c pls st pr g' ds rfs more ds1 (List.concat (pieces m)) p2 (opc (msg_binary m)) Hne (opc_data _) Hp Hi Hl2 Hch Hf Hed)].
+        [| |rewrite (recv_msg_c pls st pr rfs more _ (List.concat (pieces m)) p2 (opc (msg_binary m)) Hne (opc_data _) Hp Hi Hch Hfeed Hed)].
       3:{ cbv zeta. unfold delivered. rewrite concat_pieces, opc_binary. reflexivity. }
       all: reflexivity.
   Qed.
@@ -1502,10 +1551,13 @@ Proof.
 Qed.
 
 (* any extension: a sender and a receiver object created from compatible parameters *)
+Lemma typestate_safe_all x cnct dnct : typestate_safe (disc_of x) cnct dnct = true.
+Proof. destruct x; reflexivity. Qed.
+
 Lemma lossless_init CS DS c_new c_compress c_flush d_new d_feed x compat R :
   codec_law CS DS c_new c_compress c_flush d_new d_feed (disc_of x) compat R ->
   forall cw mem cnct dw' dnct' cw' mem' cnct' dw dnct,
-  compat cw dw = true -> (dnct = true -> cnct = true) -> typestate_safe (disc_of x) cnct dnct = true ->
+  compat cw dw = true -> (dnct = true -> cnct = true) ->
   forall ms, Forall msg_wf ms ->
   exists ps' fss,
     send_msgs CS DS c_new c_compress c_flush (Some (pmce_init CS DS (disc_of x) cw mem cnct dw' dnct')) ms
@@ -1515,7 +1567,8 @@ Lemma lossless_init CS DS c_new c_compress c_flush d_new d_feed x compat R :
                        (List.concat rfss))
       = map (fun m => Delivered (msg_payload m) (msg_binary m)) ms.
 Proof.
-  intros law cw mem cnct dw' dnct' cw' mem' cnct' dw dnct Hc Hn Hs ms Hw.
+  intros law cw mem cnct dw' dnct' cw' mem' cnct' dw dnct Hc Hn ms Hw.
+  pose proof (typestate_safe_all x cnct dnct) as Hs.
   destruct (lossless_run CS DS c_new c_compress c_flush d_new d_feed x compat R law ms _ _
               (J_init CS DS x compat R _ cw mem cnct dw' dnct' cw' mem' cnct' dw dnct eq_refl Hc Hn Hs) Hw)
     as (ps' & fss & Hs1 & Hr).
@@ -1548,7 +1601,7 @@ Proof.
   fold s in W1, N1, W2, N2. fold c in W1, N1, W2, N2.
   split; unfold pmce_of_deflate;
     apply (lossless_init CS DS c_new c_compress c_flush d_new d_feed XDeflate Z.leb R law); try assumption;
-    try (apply Z.leb_le; assumption); reflexivity.
+    apply Z.leb_le; assumption.
 Qed.
 
 (* ---- typestate, closed form ---- *)
@@ -1568,15 +1621,32 @@ Proof.
   intros Hs. apply ev_clean_no_typestate. apply typestate_recv. split; [exact Hs | exact I].
 Qed.
 
-Lemma end_safe_not_brotli x nct : x <> XBrotli \/ nct = true ->
+Lemma end_safe_all x nct :
   end_safe (dc_comp_end (disc_of x)) (dc_start_nct (disc_of x)) nct = true /\
   end_safe (dc_decomp_end (disc_of x)) (dc_start_nct (disc_of x)) nct = true.
-Proof. destruct x; cbn; intros [H| ->]; auto; contradiction. Qed.
+Proof. destruct x; split; reflexivity. Qed.
 
-(* brotli with context takeover (the default): the compressor object is finished by the first message and reused *)
+(* every extension that ends its stream per message (bzip2, brotli) drops both library objects at the end of the message:
+   the next message gets fresh ones whatever no_context_takeover says *)
+Lemma stream_per_message_drops CS DS c_flush d_feed x (p : pmce CS DS) :
+  x = XBzip2 \/ x = XBrotli -> p_disc p = disc_of x ->
+  (forall g cs, p_comp p = HLive g cs ->
+     exists p' out, end_compress CS DS c_flush p = Ok (p', out) /\ p_comp p' = HNone) /\
+  (forall g ds, p_decomp p = HLive g ds ->
+     exists p', end_decompress CS DS d_feed p = Ok p' /\ p_decomp p' = HNone).
+Proof.
+  intros Hx Hd. split.
+  - intros g cs Hl. rewrite (endC_live CS DS c_flush p g cs Hl), Hd.
+    destruct Hx as [-> | ->]; cbn; eexists _, _; split; reflexivity.
+  - intros g ds Hl. unfold end_decompress. rewrite Hd.
+    destruct Hx as [-> | ->]; cbn; eexists; split; reflexivity.
+Qed.
+
+(* what the brotli fix (444bd7d4) repaired: with the former discipline - finish() and keep the object - and context
+   takeover (the default), the compressor object is finished by the first message and reused *)
 Lemma brotli_second_send_fails CS DS c_new c_compress c_flush cw mem dw dnct m1 b1 v m2 b2 :
   exists first,
-    send_msgs CS DS c_new c_compress c_flush (Some (pmce_init CS DS disc_brotli cw mem false dw dnct))
+    send_msgs CS DS c_new c_compress c_flush (Some (pmce_init CS DS disc_brotli_before_fix cw mem false dw dnct))
               [MWhole m1 b1 None false; MWhole (v :: m2) b2 None false]
     = SendRaised CS DS (SE (ETypestate OnFinished)) [first].
 Proof.
@@ -1585,7 +1655,7 @@ Qed.
 
 Lemma brotli_second_recv_fails CS DS d_new d_feed cw mem cnct dw p1 v p2 ds1 o1 :
   d_feed (d_new dw) p1 = Some (ds1, o1) ->
-  snd (recv_frames CS DS d_new d_feed (rstate_init CS DS (Some (pmce_init CS DS disc_brotli cw mem cnct dw false)))
+  snd (recv_frames CS DS d_new d_feed (rstate_init CS DS (Some (pmce_init CS DS disc_brotli_before_fix cw mem cnct dw false)))
                    [(true, 4%N, 2%N, [p1]); (true, 4%N, 2%N, [v :: p2])])
   = [Delivered (o1 ++ []) true; Escaped (ETypestate OnFinished)].
 Proof. intros H. cbv. cbv in H. rewrite H. reflexivity. Qed.
@@ -1695,39 +1765,40 @@ Lemma recv_frame_rejects CS DS d_new d_feed (st : rstate CS DS) fin rsv opcode c
   recv_frame CS DS d_new d_feed st fin rsv opcode chunks = (st, [Violation v], false).
 Proof. intros H. unfold recv_frame. rewrite H. reflexivity. Qed.
 
-Lemma typestate_partial CS DS c_new c_compress c_flush d_new d_feed x cw mem cnct dw dnct :
-  (x <> XBrotli \/ cnct = true ->
-   forall ms, ~ typestate_error_send CS DS (send_msgs CS DS c_new c_compress c_flush
-                                                        (Some (pmce_init CS DS (disc_of x) cw mem cnct dw dnct)) ms)) /\
-  (x <> XBrotli \/ dnct = true ->
-   forall fs, ~ typestate_error_recv (snd (recv_frames CS DS d_new d_feed
+Lemma typestate_all CS DS c_new c_compress c_flush d_new d_feed x cw mem cnct dw dnct :
+  (forall ms, ~ typestate_error_send CS DS (send_msgs CS DS c_new c_compress c_flush
+                                                      (Some (pmce_init CS DS (disc_of x) cw mem cnct dw dnct)) ms)) /\
+  (forall fs, ~ typestate_error_recv (snd (recv_frames CS DS d_new d_feed
                                              (rstate_init CS DS (Some (pmce_init CS DS (disc_of x) cw mem cnct dw dnct))) fs))).
 Proof.
   split.
-  - intros H ms. apply typestate_send_init. apply (end_safe_not_brotli x cnct H).
-  - intros H fs. apply typestate_recv_init. apply (end_safe_not_brotli x dnct H).
+  - intros ms. apply typestate_send_init. apply (end_safe_all x cnct).
+  - intros fs. apply typestate_recv_init. apply (end_safe_all x dnct).
 Qed.
 
 (* the identity codec satisfies the stream law with the deflate discipline (tail strip / re-append) *)
+Lemma id_feed_seq pieces : feed_seq unit id_d_feed tt pieces = Some (tt, List.concat pieces).
+Proof. induction pieces as [|c r IH]; [reflexivity|]. cbn [feed_seq id_d_feed obind List.concat]. now rewrite IH. Qed.
+
 Lemma id_codec_law :
   codec_law unit unit id_c_new id_c_compress id_c_flush_tail id_d_new id_d_feed disc_deflate Z.leb (fun _ _ _ => True).
 Proof.
   constructor; try (intros; exact I).
-  - intros []. reflexivity.
-  - intros [] a b. reflexivity.
+  - intros _ []. reflexivity.
   - intros wd [] [] xs _. cbn [disc_deflate dc_flush dc_tail].
     assert (H : forall ys, exists outs, c_run_data unit id_c_compress tt ys = (tt, outs) /\ List.concat outs = List.concat ys).
     { induction ys as [|y r [outs [E1 E2]]]; [exists []; split; reflexivity|].
       exists (y :: outs). cbn [c_run_data id_c_compress]. rewrite E1. cbn [List.concat]. split; [reflexivity | now rewrite E2]. }
     destruct (H xs) as (outs & E1 & E2). rewrite E1. cbn [id_c_flush_tail].
-    exists [], tt, tt, tail4. rewrite app_nil_r, E2. repeat split.
+    exists [], tt, tt, tail4. split; [reflexivity|]. split; [|split; [reflexivity | exact I]].
+    intros pieces _ Hc. rewrite id_feed_seq, Hc, app_nil_r, E2. reflexivity.
 Qed.
 
 (* The sender's fragmentation loop emits a trailing EMPTY frame whenever the fragment size divides the compressed
    length; a decompressor that refuses calls after end-of-stream (bz2) then raises on that frame: with the bzip2
    discipline and the end-of-stream strict codec the message [1;2] sent with fragmentSize 1 is not delivered. *)
 Lemma eos_strict_loses_message :
-  let p := pmce_init unit bool disc_bzip2 9 0 false 0 false in
+  let p := pmce_init unit bool disc_bzip2_before_fix 9 0 false 0 false in
   let ms := [MWhole [1; 2]%N true (Some 1) false] in
   Forall msg_wf ms /\
   match send_msgs unit bool id_c_new id_c_compress eos_c_flush (Some p) ms with
@@ -1743,7 +1814,7 @@ Proof. split; [repeat constructor; cbn; lia | vm_compute; split; reflexivity]. Q
 
 (* ... while the same codec, fragment size 2 (no trailing empty frame), delivers it *)
 Lemma eos_strict_ok_without_empty_frame :
-  let p := pmce_init unit bool disc_bzip2 9 0 false 0 false in
+  let p := pmce_init unit bool disc_bzip2_before_fix 9 0 false 0 false in
   match send_msgs unit bool id_c_new id_c_compress eos_c_flush (Some p) [MWhole [1; 2]%N true (Some 2) false] with
   | Sent _ _ _ fss =>
       snd (recv_frames unit bool eos_d_new eos_d_feed (rstate_init unit bool (Some p))
@@ -1849,3 +1920,17 @@ Proof.
       replace (l =? 0) with false by (symmetry; apply Z.eqb_neq; lia). lia.
     + replace (ba_req_mcl a =? 0) with false by (symmetry; now apply Z.eqb_neq). lia.
 Qed.
+
+(* the bzip2 fix (36836fb7): with the empty-input guard the same message, trailing empty frame included, is delivered *)
+Lemma eos_strict_guarded_delivers :
+  let p := pmce_init unit bool disc_bzip2 9 0 false 0 false in
+  match send_msgs unit bool id_c_new id_c_compress eos_c_flush (Some p) [MWhole [1; 2]%N true (Some 1) false] with
+  | Sent _ _ _ fss =>
+      map (map (fun f => (f_fin f, f_rsv f, f_payload f))) fss
+        = [[(false, 4%N, [1%N]); (false, 0%N, [2%N]); (false, 0%N, [255%N]); (true, 0%N, [])]] /\
+      snd (recv_frames unit bool eos_d_new eos_d_feed (rstate_init unit bool (Some p))
+             (map (fun f => (f_fin f, f_rsv f, f_opcode f, [f_payload f])) (List.concat fss)))
+      = [Delivered [1; 2]%N true]
+  | SendRaised _ _ _ _ => False
+  end.
+Proof. vm_compute. split; reflexivity. Qed.
